@@ -279,6 +279,27 @@ func runC11(w *World, r *Report, tier string) {
 		}
 		nTrue, nOther := 0, 0
 		bad3, bad4 := "", ""
+		// before the reply has been read nothing can have been resumed: every return on the way there says false
+		{
+			isNP := func(in ssa.Instruction) bool { return in == ssa.Instruction(np) }
+			badEarly := ""
+			nEarly := 0
+			errE := walkPaths(entryLoc(fn), isNP, nil, 20000, func(path []ssa.Instruction, end pathEnd) {
+				ret, isRet := path[len(path)-1].(*ssa.Return)
+				if !isRet || len(ret.Results) != 1 {
+					return
+				}
+				nEarly++
+				if b, isC := boolConst(resolveOn(rres(path, ret)[0], len(path)-1, path)); !isC || b {
+					badEarly = "resume reports a successful resumption before any reply has been read (return at " + w.ipos(ret) + "): NewSession returns an established session although <resume/> was not even sent"
+				}
+			})
+			if errE != nil {
+				r.Undecided("R3", "xmpp.(*Session).resume#before-reply", w.pos(fn.Pos()), errE.Error())
+			} else {
+				r.Check(badEarly == "", "R3", "xmpp.(*Session).resume#before-reply", w.pos(fn.Pos()), badEarly, fmt.Sprintf("%d return(s) before the reply, all false", nEarly))
+			}
+		}
 		err := walkPaths(after(np), nil, nil, 20000, func(path []ssa.Instruction, end pathEnd) {
 			last := path[len(path)-1]
 			ret, isRet := last.(*ssa.Return)
